@@ -620,11 +620,19 @@ func loopBoundOf(ins ssa.Instruction) ssa.Value {
 			continue
 		}
 		bo, ok := i.Cond.(*ssa.BinOp)
-		if !ok || bo.Op != token.LSS || p.Succs[0] != b {
+		if !ok || p.Succs[0] != b {
 			continue
 		}
-		if phi, ok := bo.X.(*ssa.Phi); ok && phi.Block() == p {
-			return bo.Y
+		x, y := bo.X, bo.Y
+		switch bo.Op {
+		case token.LSS:
+		case token.GTR: // B > i
+			x, y = y, x
+		default:
+			continue
+		}
+		if phi, ok := x.(*ssa.Phi); ok && phi.Block() == p {
+			return y
 		}
 	}
 	return nil
